@@ -1,9 +1,9 @@
 """Development aid: python -m pv.triage <ID>  -> compact table of the replays written by the last run."""
-import glob, json, sys, collections
+import glob, json, os, sys, collections
 def main():
     pid = sys.argv[1]
     rows = []
-    for f in glob.glob(f"/verif/replays/{pid}/*.json"):
+    for f in glob.glob(os.path.join(os.environ.get("VERIF_REPLAY_DIR", "/verif/replays"), pid, "*.json")):
         v = json.load(open(f))["violation"]
         rows.append(v)
     rows.sort(key=lambda v: (str(v.get("key")), len(v.get("grammar", "")) + len(v.get("input", ""))))
